@@ -446,6 +446,59 @@ def h_pause(ctx, npause, hold=9):
     return [cuts, len(P.notifications()), seen]
 
 
+# ----------------------------------------------------------------------------- the maximum in force on the connection
+
+
+def h_extended(ctx):
+    """RFC 8654: messages up to 65535 octets are accepted iff BOTH speakers advertised Extended Message.  The real Peer runs
+    the handshake (our OPEN first, or - `local-as auto` - the peer's OPEN first) over the real Connection reader, then the peer
+    sends one well-formed UPDATE of 4419 octets: the limit the CONNECTION applies must be the negotiated one."""
+    import struct
+    from kits import session as S
+    from kits import peer as P
+    from checks import c05 as C5
+    ours = bool(ctx.bool('we-advertise-extended-message'))
+    theirs = bool(ctx.bool('peer-advertises-extended-message'))
+    auto = bool(ctx.bool('local-as-auto'))
+    conf = S.mk_conf(local_as=C5.LOCAL_AS, peer_as=C5.PEER_AS, hold=9, families=('ipv4 unicast',), extended_message=ours, adj_rib_in=True)
+    if auto:
+        conf = conf.replace('local-as %d;' % C5.LOCAL_AS, 'local-as auto;')
+        ctx.cover('peer-open-read-first')
+    neighbor = S.neighbor_from(conf)
+    neighbor.api = dict(neighbor.api)
+    neighbor.reset_rib()
+    neighbor.rib.incoming.clear()
+    body = S.peer_open_body(asn=C5.PEER_AS, hold=9, router_id=b'\x05\x06\x07\x08', families=((1, 1),), asn4=True, extended_message=theirs)
+    filler = bytes([0xD0, 99]) + struct.pack('!H', 4360) + bytes(4360)          # unknown optional transitive attribute, extended length
+    attrs = bytes.fromhex('40010100' + '4002060201' + '0000fde9' + '400304c0000201') + filler
+    update = b'\x00\x00' + struct.pack('!H', len(attrs)) + attrs + bytes.fromhex('180a0000')
+    big = P.msg(2, update)
+    stream = P.msg(1, body) + P.KEEPALIVE + big + P.KEEPALIVE
+    feeder = P.ByteFeeder([('data', stream), ('pause', 0.35), ('eof',)])
+    peer = P.new_peer(neighbor, feeder)
+    seen = []
+    orig = neighbor.rib.incoming.update_cache
+    neighbor.rib.incoming.update_cache = lambda route: (seen.append(str(route.nlri)), orig(route))[1]
+    try:
+        result = P.drive(peer._run(), max_steps=4000)
+    finally:
+        neighbor.rib.incoming.update_cache = orig
+    w = P.WORLD
+    notes = [(c, sc) for _, c, sc in P.notifications()]
+    both = ours and theirs
+    info = {'we': ours, 'peer': theirs, 'local-as-auto': auto, 'update-octets': len(big), 'notifications': notes, 'received': seen,
+            'fsm': ['%s>%s' % t for t in w.fsm], 'result': result[0]}
+    ctx.check('session-established', ('OPENCONFIRM', 'ESTABLISHED') in w.fsm, sig='C06:extended:session-not-established', info=info)
+    if both:
+        ctx.cover('extended-negotiated')
+        ctx.check('large-message-accepted', not notes and seen == ['10.0.0.0/24'],
+                  sig='C06:extended:negotiated-but-large-message-refused' + (':local-as-auto' if auto else ''), info=info)
+    else:
+        ctx.cover('extended-not-negotiated')
+        ctx.check('large-message-refused', notes == [(1, 2)] and not seen, sig='C06:extended:not-negotiated-but-large-message-accepted', info=info)
+    return [ours, theirs, auto, notes, seen]
+
+
 # ----------------------------------------------------------------------------- units
 
 
@@ -471,6 +524,7 @@ def units(tier):
                        must_cover=('delivered', 'split'), weight=40))
         us.append(Unit('big/gen/n%d' % number, lambda ctx, n=number: h_chunk(ctx, n, 'gen', 3, extra=19, big=True),
                        must_cover=('delivered', 'split'), weight=40))
+    us.append(Unit('extended/limit-in-force', h_extended, must_cover=('extended-negotiated', 'extended-not-negotiated', 'peer-open-read-first'), weight=30))
     for n in ((1, 2) if thorough else (1,)):
         us.append(Unit('pause/p%d' % n, lambda ctx, n=n: h_pause(ctx, n),
                        must_cover=('pause-between-messages', 'pause-inside-header', 'pause-between-header-and-body', 'pause-inside-body',
